@@ -45,6 +45,7 @@ var scopeSuffixes = []string{
 	"/notations/jschema/checker",
 	"/notations/jschema/ischema",
 	"/notations/jschema/ischema/constraint",
+	"/formats/json",
 }
 
 func die(f string, a ...any) {
